@@ -2,7 +2,7 @@
 EXTENDS GitAiCore
 
 \* print a replayable script for every distinct state reached by an observable action
-EmitAfter == {"Commit", "Rebase", "CherryPick", "Amend", "MergeSquash"}
+EmitAfter == {"Commit", "Rebase", "CherryPick", "Amend", "MergeSquash", "IRebase", "CherryPickMany"}
 Emit == (hist # <<>> /\ hist[Len(hist)].a \in EmitAfter) => PrintT(<<"REPLAY", ToJson(hist)>>)
 
 G_C01_Exact      == Clean(C01_Exact)
